@@ -160,6 +160,7 @@ def check_scale(c):
     for kind in ('uni', 'cheb', [2.0, 6.0], [-1.0, 0.0]):
         res.ev()
         case = dict(c, kind=kind)
+        X0 = X.copy()
         with warnings.catch_warnings():
             warnings.simplefilter('ignore')
             S = teneva.poi_scale(X, a, b, kind)
@@ -171,6 +172,7 @@ def check_scale(c):
                 v = Fraction(lo) + (fx - fa) / (fb - fa) * (Fraction(hi) - Fraction(lo))
                 v = min(max(v, Fraction(lo)), Fraction(hi))
                 E[j, k] = float(v)
+        res.check(np.array_equal(X, X0), 'scale.input_untouched', case, 'poi_scale changed the caller\'s points', ['scale'])
         res.check(S.shape == X.shape and np.array_equal(S, E), 'scale', case,
                   lambda: 'poi_scale differs from the exact affine map: max dev %.3e' % np.abs(S - E).max(), ['scale'])
         s1 = teneva.poi_scale(X[2], a, b, kind)
@@ -180,6 +182,20 @@ def check_scale(c):
             res.check(np.array_equal(S2, S), 'scale.scalar_opts', case, 'scalar and per-dimension options differ')
             S3 = teneva.poi_scale(X, np.array(a), b[0], kind)
             res.check(np.array_equal(S3, S), 'scale.mixed_opts', case, 'mixed scalar / array options differ')
+    # the box that IS the target interval (nothing to shift or stretch), points outside it included: the caller's array is an input
+    for kind, (lo, hi) in (('uni', (0.0, 1.0)), ('cheb', (-1.0, 1.0))):
+        for form in ('scalar', 'list'):
+            res.ev()
+            Xs = np.array([[lo - 0.5 + 0.37 * ((j + 2 * k) % 5) * (hi - lo) for k in range(d)] for j in range(6)])
+            Xs0 = Xs.copy()
+            aa, bb = (lo, hi) if form == 'scalar' else ([lo] * d, [hi] * d)
+            with warnings.catch_warnings():
+                warnings.simplefilter('ignore')
+                Ss = teneva.poi_scale(Xs, aa, bb, kind)
+                Js = teneva.poi_to_ind(Xs, aa, bb, 5, kind)
+            res.check(np.array_equal(Xs, Xs0) and not np.shares_memory(Ss, Xs), 'scale.identity_box.input_untouched', dict(c, kind=kind, form=form),
+                      'poi_scale / poi_to_ind on the box [%g, %g] changed (or returned) the caller\'s array' % (lo, hi), ['scale'])
+            res.check(np.array_equal(Ss, np.clip(Xs0, lo, hi)), 'scale.identity_box', dict(c, kind=kind, form=form), 'identity box: result is not the clipped input', ['scale'])
     res.ev()
     try:
         teneva.poi_scale(X, a, b, 'nope')
@@ -346,6 +362,12 @@ def check_flat(c):
             continue
         E = np.array([[(j // int(np.prod(shape[:k]))) % shape[k] for k in range(d)] for j in range(N)]).reshape(N, d)
         res.check(np.array_equal(I, E), 'flat.order', case, 'not every multi-index once with the first index fastest')
+        # the result belongs to the caller: writing to it must not change what the next call returns (array and list form of n)
+        I += 1
+        I2 = teneva.grid_flat(np.array(shape))
+        I3 = teneva.grid_flat(list(shape))
+        res.check(np.array_equal(I2, E) and np.array_equal(I3, E) and not np.shares_memory(I2, I3), 'flat.again', case,
+                  'grid_flat returns something else after an earlier result was modified in place')
         res.nt(tuple(shape))
     for n in (1, 3, 4.0, np.int64(5)):
         res.ev()
